@@ -856,6 +856,87 @@ type cliCase struct {
 	Cmd   string    `json:"cmd"` // phase | phasent | orf
 	Phase phaseCase `json:"phase"`
 	Orf   orfCase   `json:"orf"`
+	// presentation of the input files
+	Layout cli.Layout `json:"layout"`
+	// second execution: where each output goes - "default" (option absent), "new" file, "stale"
+	// (existing, longer file) or "stdout" (at most one stream); what is read back must be what
+	// the first execution (every output in its own new file) gave
+	Dest dests `json:"dest"`
+}
+
+type dests struct {
+	Out, Aa, Nt, Log string
+}
+
+func drawDests(t *rapid.T) dests {
+	var d dests
+	d.Out = rapid.SampledFrom([]string{"default", "default", "new", "stale"}).Draw(t, "dout")
+	stdoutFree := d.Out != "default"
+	pick := func(label string) string {
+		opts := []string{"default", "default", "new", "stale"}
+		if stdoutFree {
+			opts = append(opts, "stdout")
+		}
+		v := rapid.SampledFrom(opts).Draw(t, label)
+		if v == "stdout" {
+			stdoutFree = false
+		}
+		return v
+	}
+	d.Nt = pick("dnt")
+	d.Aa = pick("daa")
+	d.Log = pick("dlog")
+	return d
+}
+
+// destArg returns the arguments for one output option and the function reading it back
+func destArg(dir, flag, dest string) (args []string, read func(stdout string) (string, bool)) {
+	switch dest {
+	case "new", "stale":
+		path := cli.TempFile(dir, ".dest", "")
+		os.Remove(path)
+		if dest == "stale" {
+			cli.StaleFile(path, 60)
+		}
+		return []string{flag, path}, func(string) (string, bool) {
+			b, err := os.ReadFile(path)
+			return string(b), err == nil
+		}
+	case "stdout":
+		return []string{flag, "stdout"}, func(stdout string) (string, bool) { return stdout, true }
+	}
+	return nil, nil
+}
+
+// logLines: the per-sequence lines of a phase / phasent log, by sequence name
+func logLines(text string, input map[string]string) (map[string]string, error) {
+	m := map[string]string{}
+	for _, line := range strings.Split(text, "\n") {
+		f := strings.Split(line, "\t")
+		if len(f) < 4 {
+			continue
+		}
+		if _, in := input[f[0]]; !in {
+			continue
+		}
+		if _, dup := m[f[0]]; dup {
+			return nil, fmt.Errorf("two log lines for %s", f[0])
+		}
+		m[f[0]] = line
+	}
+	return m, nil
+}
+
+func sameMap(a, b map[string]string) bool {
+	if len(a) != len(b) {
+		return false
+	}
+	for k, v := range a {
+		if w, ok := b[k]; !ok || w != v {
+			return false
+		}
+	}
+	return true
 }
 
 func readFastaFile(path string) ([]gen.Row, error) {
@@ -884,7 +965,9 @@ func TestCLI(t *testing.T) {
 	dir := cli.TempDir("c16cli")
 	pbt.Run(t, func(t *rapid.T) cliCase {
 		var c cliCase
-		c.Cmd = rapid.SampledFrom([]string{"phase", "phase", "phasent", "phasent", "orf"}).Draw(t, "cmd")
+		c.Cmd = rapid.SampledFrom([]string{"phase", "phase", "phasent", "phasent", "phasent", "orf"}).Draw(t, "cmd")
+		c.Layout = cli.DrawLayout(t)
+		c.Dest = drawDests(t)
 		if c.Cmd == "orf" {
 			c.Orf = genOrf(t)
 			c.Orf.Bag = true
@@ -938,7 +1021,7 @@ func TestCLI(t *testing.T) {
 		o.Class("cmd=%s", c.Cmd)
 		if c.Cmd == "orf" {
 			o.Class("style=%s", c.Orf.Style)
-			in := cli.TempFile(dir, ".fa", cli.Fasta(c.Orf.Seqs))
+			in := cli.TempFile(dir, ".fa", cli.FastaLayout(c.Orf.Seqs, c.Layout))
 			args := []string{"orf", "-i", in}
 			if c.Orf.Reverse {
 				args = append(args, "--reverse")
@@ -961,26 +1044,37 @@ func TestCLI(t *testing.T) {
 			if e := judgeORF(un, rows[0].Seq, true, &o); e != nil {
 				return o, fmt.Errorf("goalign %v: %v", args, e)
 			}
+			if a2, read := destArg(dir, "-o", c.Dest.Out); read != nil {
+				args2 := append(append([]string{}, args...), a2...)
+				r2 := cli.Run("", args2...)
+				text, _ := read(r2.Stdout)
+				rows2, perr2 := cli.ParseFasta(text)
+				if r2.Exit != 0 || perr2 != nil || !gen.SameRows(rows2, rows) {
+					return o, fmt.Errorf("goalign %v: exit %d, result read back %q; on stdout the same command gave %q", args2, r2.Exit, text, r.Stdout)
+				}
+				o.Class("orf -o %s", c.Dest.Out)
+			}
 			return o, nil
 		}
 		pc := c.Phase
-		in := cli.TempFile(dir, ".fa", cli.Fasta(pc.Seqs))
+		in := cli.TempFile(dir, ".fa", cli.FastaLayout(pc.Seqs, c.Layout))
 		logf := cli.TempFile(dir, ".log", "")
 		aaf := cli.TempFile(dir, ".aa.fa", "")
 		codf := cli.TempFile(dir, ".codon.fa", "")
 		w := pc.Workers[len(pc.Workers)-1]
-		args := []string{c.Cmd, "-i", in, "--unaligned", "--match-cutoff", "-1", "-l", logf, "--aa-output", aaf, "--genetic-code", pc.Code, "-t", fmt.Sprint(w)}
-		if c.Cmd == "phasent" {
-			args = append(args, "--nt-output", codf)
-		}
+		base := []string{c.Cmd, "-i", in, "--unaligned", "--match-cutoff", "-1", "--genetic-code", pc.Code, "-t", fmt.Sprint(w)}
 		if len(pc.Orfs) > 0 {
-			args = append(args, "--ref-orf", cli.TempFile(dir, ".ref.fa", cli.Fasta(pc.Orfs)))
+			base = append(base, "--ref-orf", cli.TempFile(dir, ".ref.fa", cli.FastaLayout(pc.Orfs, c.Layout)))
 		}
 		if pc.Reverse {
-			args = append(args, "--reverse")
+			base = append(base, "--reverse")
 		}
 		if pc.CutEnd {
-			args = append(args, "--cut-end")
+			base = append(base, "--cut-end")
+		}
+		args := append(append([]string{}, base...), "-l", logf, "--aa-output", aaf)
+		if c.Cmd == "phasent" {
+			args = append(args, "--nt-output", codf)
 		}
 		var plain []string
 		input := map[string]string{}
@@ -1033,22 +1127,16 @@ func TestCLI(t *testing.T) {
 		}
 		lb, _ := os.ReadFile(logf)
 		pos := map[string]int{}
-		for _, line := range strings.Split(string(lb), "\n") {
-			f := strings.Split(line, "\t")
-			if len(f) < 4 {
-				continue
-			}
-			if _, in := input[f[0]]; !in {
-				continue
-			}
-			if _, dup := pos[f[0]]; dup {
-				return o, fmt.Errorf("goalign %v: two log lines for %s", args, f[0])
-			}
+		loglines, e := logLines(string(lb), input)
+		if e != nil {
+			return o, fmt.Errorf("goalign %v: %v", args, e)
+		}
+		for name, line := range loglines {
 			var p int
-			if _, e := fmt.Sscanf(f[2], "%d", &p); e != nil {
+			if _, e := fmt.Sscanf(strings.Split(line, "\t")[2], "%d", &p); e != nil {
 				return o, fmt.Errorf("goalign %v: log line %q has no start position", args, line)
 			}
-			pos[f[0]] = p
+			pos[name] = p
 		}
 		if len(nt) != len(pc.Seqs) || len(aa) != len(pc.Seqs) || len(codon) != len(pc.Seqs) || len(pos) != len(pc.Seqs) {
 			return o, fmt.Errorf("goalign %v: %d input sequences, %d nucleotide / %d amino-acid / %d codon records, %d log lines", args, len(pc.Seqs), len(nt), len(aa), len(codon), len(pos))
@@ -1069,7 +1157,66 @@ func TestCLI(t *testing.T) {
 			}
 			misframed = misframed || p%3 != 0
 		}
+		// second execution: every combination of file / stdout / default of the output options
+		{
+			args2 := append([]string{}, base...)
+			type stream struct {
+				what string
+				read func(string) (string, bool)
+				want map[string]string
+				log  bool
+			}
+			var streams []stream
+			add := func(flag, dest, what string, want map[string]string, log bool) {
+				a, read := destArg(dir, flag, dest)
+				args2 = append(args2, a...)
+				if read != nil {
+					streams = append(streams, stream{what, read, want, log})
+				}
+				o.Class("%s %s=%s", c.Cmd, flag, dest)
+			}
+			if c.Dest.Out == "default" {
+				streams = append(streams, stream{"nucleotide output (stdout)", func(so string) (string, bool) { return so, true }, nt, false})
+				o.Class("%s -o=default", c.Cmd)
+			} else {
+				add("-o", c.Dest.Out, "nucleotide output (-o)", nt, false)
+			}
+			add("--aa-output", c.Dest.Aa, "amino-acid output (--aa-output)", aa, false)
+			if c.Cmd == "phasent" {
+				add("--nt-output", c.Dest.Nt, "codon output (--nt-output)", codon, false)
+			}
+			add("-l", c.Dest.Log, "log (-l)", loglines, true)
+			r2 := cli.Run("", args2...)
+			if r2.Exit != 0 {
+				return o, fmt.Errorf("goalign %v: exit %d, stderr %q", args2, r2.Exit, firstLine(r2.Stderr))
+			}
+			for _, st := range streams {
+				text, ok := st.read(r2.Stdout)
+				if !ok {
+					return o, fmt.Errorf("goalign %v: the %s was not written", args2, st.what)
+				}
+				var got map[string]string
+				var e error
+				if st.log {
+					got, e = logLines(text, input)
+				} else {
+					var rows []gen.Row
+					if rows, e = cli.ParseFasta(text); e == nil {
+						got, e = byName(rows, st.what)
+					}
+				}
+				if e != nil {
+					return o, fmt.Errorf("goalign %v: %s unreadable: %v (%q)", args2, st.what, e, trunc(text, 200))
+				}
+				if !sameMap(got, st.want) {
+					return o, fmt.Errorf("goalign %v: the %s holds %d records, not those the same command wrote when every output had its own new file (%d records); read back: %q", args2, st.what, len(got), len(st.want), trunc(text, 300))
+				}
+			}
+		}
 		o.NonTrivial = (w >= 2 && len(pc.Seqs) >= 4) || misframed
+		if !c.Layout.Plain() {
+			o.Class("input-layout-not-plain")
+		}
 		o.Class("threads=%d", w)
 		o.Class("style=%s", pc.Style)
 		o.Class("reverse=%v cutend=%v", pc.Reverse, pc.CutEnd)
@@ -1085,6 +1232,13 @@ func TestCLI(t *testing.T) {
 func firstLine(s string) string {
 	if i := strings.IndexByte(s, '\n'); i >= 0 {
 		return s[:i]
+	}
+	return s
+}
+
+func trunc(s string, n int) string {
+	if len(s) > n {
+		return s[:n] + "..."
 	}
 	return s
 }
